@@ -121,6 +121,11 @@ func (fr *Frame) loopEffects(pre *State, li *loopInfo) *loopEffects {
 			}
 			if a, ok := x.X.(*ssa.Alloc); ok && fr.reg[a] {
 				if writtenLocal[a] {
+					// a temporary declared inside the loop and assigned once (p := &x.f):
+					// follow the value it was given
+					if sv := singleStore(a); sv != nil && li.blocks[a.Block()] {
+						return rootVal(sv, depth+1)
+					}
 					return Val{}, false, false
 				}
 				return fr.getLocal(pre, a), true, false
@@ -167,6 +172,15 @@ func (fr *Frame) loopEffects(pre *State, li *loopInfo) *loopEffects {
 				return objType(x.X, depth+1)
 			}
 			return x.X.Type() // slice backing array: dynamic type is the slice type
+		}
+		if u, ok := v.(*ssa.UnOp); ok && u.Op == token.MUL {
+			if a, ok := u.X.(*ssa.Alloc); ok && fr.reg[a] {
+				if sv := singleStore(a); sv != nil {
+					if t := objType(sv, depth+1); t != nil {
+						return t
+					}
+				}
+			}
 		}
 		if pt, ok := v.Type().Underlying().(*types.Pointer); ok && vc.p.rootOnly(pt.Elem()) {
 			return pt.Elem()
@@ -572,4 +586,21 @@ func (fr *Frame) effectFree(fn *ssa.Function, depth int) bool {
 	}
 	vc.p.effFree[fn] = ok
 	return ok
+}
+
+// singleStore: the value stored into a local variable that is assigned exactly
+// once in its function (nil otherwise).
+func singleStore(a *ssa.Alloc) ssa.Value {
+	var v ssa.Value
+	n := 0
+	for _, ref := range *a.Referrers() {
+		if st, ok := ref.(*ssa.Store); ok && st.Addr == a {
+			n++
+			v = st.Val
+		}
+	}
+	if n == 1 {
+		return v
+	}
+	return nil
 }
